@@ -42,7 +42,7 @@ def strategy(draw, tier="quick"):
     base = draw(gen_spec(allow_rels=True, allow_rdep=True, max_space=1, nvals=1))
     base["vals"] = []
     kind = draw(st.sampled_from(DEFECTS + VALID + SILENT))
-    return {"base": base, "inject": kind, "variant": draw(st.integers(0, 7)), "pick": draw(st.integers(0, 50))}
+    return {"base": base, "inject": kind, "variant": draw(st.integers(0, 11)), "pick": draw(st.integers(0, 50))}
 
 
 def _m(name, mod=0, **kw):
@@ -55,8 +55,8 @@ def _t(name, stmts, mod=0):
     return dict(kind="T", name=name, mod=mod, rdy=True, stmts=stmts)
 
 
-def _call(callee, en=False):
-    return dict(t="call", callee=callee, en=en, arg=None, hops=0, via_methods=False)
+def _call(callee, en=False, hops=0, via_methods=False):
+    return dict(t="call", callee=callee, en=en, arg=None, hops=hops, via_methods=via_methods)
 
 
 def _alts(kind, alts):
@@ -77,11 +77,15 @@ def inject(case):
         return spec, "ok", "none"
     if kind == "double_call":
         B.insert(0, _m("x9"))
-        if v % 4 == 0 and v >= 4:
+        if v == 4:
             # chains of different length: directly and through an intermediate method
-            B.insert(1, _m("d0", stmts=[_call("x9")]))
+            B.insert(1, _m("d0", stmts=[_call("x9", hops=case["pick"] & 1)]))
             B.append(_t("tx", [_call("d0"), _alts(v % 3, [[_call("x9")], []])]))
             label += ":different_depth"
+        elif v == 8:
+            # the two calls go through different Method handles of ONE body (provide / Methods.provide aliases)
+            B.append(_t("tx", [_call("x9", hops=1), _call("x9", en=True, hops=case["pick"] % 3, via_methods=bool(case["pick"] & 4))]))
+            label += ":through_two_handles"
         elif v % 4 == 0:
             B.append(_t("tx", [_call("x9"), _call("x9", en=True)]))
             label += ":same_path"
